@@ -1,2 +1,325 @@
-/- Property theorems for C11 (placeholder until the proofs land). -/
-import Avt.Spec.C11
+/-
+  Avt.Props.C11 — dump() reproduces the terminal for all future input.
+
+  The property is decomposed as in DESIGN.md §6/C11 (all definitions are those of Avt/Spec/C11.lean,
+  which the oracle evaluates on the implementation):
+
+    Obs s                what the public API shows (view cells, pens, wrap marks, cursor, cursor-key mode)
+    normD s              normal form erasing what no future input can observe
+    C11_dump_full        Reach s → ¬resizedOnAlt s → cursorStepFaithful s → normD (restore s) = normD s
+    C11_norm_sound       normD a = normD b → normD (feed a c) = normD (feed b c)        (for reachable a, b)
+    C11_from_parts       the two together give: Obs equal after every continuation      [proved]
+
+  STATUS: PARTIAL.  `C11_dump_full` and `C11_norm_sound` are stated (as `def … : Prop`), not proved.
+  What is proved, unbounded (every size, every register content, every pen, every parameter list):
+
+    Avt.Props.C11.C11_feedAll_append          feeding a concatenation = feeding the pieces in order
+    Avt.Props.C11.C11_renderDec_roundtrip     decimal rendering: digits only, reads back to the number
+    Avt.Props.C11.C11_parser_dump             Parser.dump round trip, ALL 14 states (CsiParam/DcsParam with
+                                              arbitrary parameter lists incl. sub-parameters and a marker)
+    Avt.Props.C11.C11_parser_dump_vt          … lifted to Vt: the terminal is untouched, the parser restored
+    Avt.Props.C11.C11_csi_roundtrip           every numeric CSI sequence `CSI p;p:q;… F` rebuilds its parameter
+                                              list in the registers and dispatches on it (all dump() fragments
+                                              with numbers are instances)
+    Avt.Props.C11.C11_pen_dump                Pen.dump: the SGR parameter list decodes to ops that turn ANY pen
+                                              into the dumped pen (parameter level)
+    Avt.Props.C11.C11_pen_dump_chars          … at character level, through the parser
+    Avt.Props.C11.C11_norm_obs                normD-equal states are Obs-equal
+    Avt.Props.C11.C11_normP_sound             normal-form soundness of the PARSER, every character (over the
+                                              generated tables): parsers agreeing up to dead registers emit the
+                                              same function and keep agreeing
+    Avt.Props.C11.C11_norm_sound_step_partial normal-form soundness for the 33 functions that touch no buffer
+    Avt.Props.C11.C11_norm_sound_feed_partial … combined at Vt level: one character, any parser state, emitted
+                                              function (if any) touching no buffer
+    Avt.Props.C11.C11_from_parts              C11_dump_full ∧ C11_norm_sound → Obs equal for all future input
+    Avt.Props.C11.C11_reach_feedAll           reachability is closed under input
+    Avt.Props.C11.C11_cursorStepFaithful_inside  step 9 is trivially faithful unless origin mode is on and the
+                                              cursor is outside the scroll region
+  and the NEGATIONS on the known-finding witnesses (kernel evaluation of the whole model):
+    Avt.Props.C11.KF1_witness  Avt.Props.C11.KF2_witness  Avt.Props.C11.KF3_witness
+  plus the same evaluation on a faithful neighbour of each (`KF1_neighbour_ok`, …) showing the classifier is
+  not vacuous.
+
+  Missing for the full theorem: `buffer_dump` (row content with pen runs and REP compression), the
+  terminal-level effect of each of the 14 steps, and `C11_norm_sound` for the buffer-touching functions and
+  for the parser's dead registers.  Those rest on the correspondence + spec-on-impl layers
+  (the oracle checks `normD`-equality after the restore AND after every probe/continuation, i.e. it tests
+  `C11_dump_full` and `C11_norm_sound` on the implementation).
+-/
+import Avt.Lemmas.C11Pen
+import Avt.Lemmas.C11ParserNorm
+import Avt.Lemmas.C11Witness
+
+namespace Avt.Props.C11
+open Avt Avt.Spec.C11 Avt.Lemmas.C11
+
+/-! ### the full statements -/
+
+/-- **C11, restore half (stated, not proved).**  For every reachable state that is not one of the
+    known exceptions, feeding `dump()` into a fresh terminal of the same size succeeds and yields a
+    state with the same normal form. -/
+def C11_dump_full : Prop :=
+  ∀ s : Vt, Reach s → resizedOnAlt s.terminal = false → cursorStepFaithful s.terminal = true →
+    ∃ r, restoreOf s = some r ∧ normD r = normD s
+
+/-- **C11, continuation half (stated, not proved in full).**  Equality of normal forms is preserved
+    by every further character (and the two sides panic together). -/
+def C11_norm_sound : Prop :=
+  ∀ a b : Vt, Reach a → Reach b → normD a = normD b →
+    ∀ c : Nat, (a.feed c).map normD = (b.feed c).map normD
+
+/-! ### proved fragments -/
+
+theorem C11_feedAll_append (v : Vt) (xs ys : List Nat) :
+    v.feedAll (xs ++ ys) = (v.feedAll xs).bind (fun v' => v'.feedAll ys) :=
+  Lemmas.C19.feedAll_append v xs ys
+
+/-- what `format!("{}", n)` prints consists of digits, at least one, and reads back to `n` -/
+theorem C11_renderDec_roundtrip (n : Nat) :
+    parseDec (renderDec n) = n ∧ renderDec n ≠ [] ∧ ∀ d ∈ renderDec n, 0x30 ≤ d ∧ d ≤ 0x39 :=
+  ⟨parseDec_renderDec n, by rw [renderDec_eq_digits]; exact digits_ne_nil n, renderDec_isDigit n⟩
+
+/-- **`Parser.dump` round trip (all 14 states).**  `p` any parser whose registers satisfy the invariant
+    and have the shape of their state; `q0` any parser resting in `Ground` (dead registers arbitrary):
+    feeding `Parser.dump p` to `q0` emits no function and yields `p` up to dead registers. -/
+theorem C11_parser_dump (p q0 : Parser) (hinv : PInv p = true) (hreg : PRegOK p = true)
+    (hG : q0.state = .Ground) (hP : PInv q0 = true) :
+    ∃ d q, p.dump = some d ∧ pfeedAll q0 d = some (q, []) ∧ normP q = normP p :=
+  parser_dump p q0 hinv hreg hG hP
+
+/-- the same at `Vt` level: the terminal is not touched at all -/
+theorem C11_parser_dump_vt (p : Parser) (v : Vt) (hinv : PInv p = true) (hreg : PRegOK p = true)
+    (hG : v.parser.state = .Ground) (hP : PInv v.parser = true) :
+    ∃ d v', p.dump = some d ∧ v.feedAll d = some v' ∧ v'.terminal = v.terminal
+      ∧ normP v'.parser = normP p := by
+  obtain ⟨d, q, hd, hf, hn⟩ := parser_dump p v.parser hinv hreg hG hP
+  exact ⟨d, { v with parser := q }, hd, feedAll_of_silent v d q hf, rfl, hn⟩
+
+/-- **numeric CSI sequences.**  For every parameter list `A` (≤ 32 parameters of ≤ 6 parts `< 65536`)
+    and final byte, `CSI` + `A` rendered as `p;p:q;…` + final: the registers hold exactly `A` when the
+    final byte dispatches, and the parser is back in `Ground`. -/
+theorem C11_csi_roundtrip (q0 : Parser) (hG : q0.state = .Ground) (hP : PInv q0 = true)
+    (A : Regs) (hA : RegsOK A) (fin : Nat) (h1 : 64 ≤ fin) (h2 : fin ≤ 126) :
+    pfeedAll q0 (0x9b :: renderAll A ++ [fin])
+      = (Parser.csiDispatch (conc .Ground none A) fin).map fun f => (conc .Ground none A, f.toList) := by
+  obtain ⟨_, hC, _⟩ := feed_clearing q0 hG hP
+  rw [List.cons_append, pfeedAll_cons_silent _ _ _ _ hC]
+  exact pfeed_csi_body A hA fin h1 h2
+
+/-- **`Pen::dump`, parameter level.**  The parameter list `Pen::dump` writes decodes (`SgrOps`) to
+    operations that turn ANY pen into the dumped pen. -/
+theorem C11_pen_dump (p : Pen) (h : PenOK p) :
+    ∃ ops, Parser.sgrOps ((penRegs p).map encParam) = some ops
+      ∧ ∀ q : Pen, ops.foldl Terminal.applySgr q = p :=
+  ⟨penOps p, sgrOps_penRegs p h, fun q => apply_penOps p q h⟩
+
+/-- **`Pen::dump`, character level.**  Feeding the characters of `Pen.dump p` to a parser resting in
+    `Ground` emits exactly one `Sgr` function, leaves the parser in `Ground`, and executing that
+    function on a terminal with ANY pen sets the pen to `p` (and nothing else). -/
+theorem C11_pen_dump_chars (p : Pen) (h : PenOK p) (q0 : Parser) (hG : q0.state = .Ground)
+    (hP : PInv q0 = true) :
+    ∃ d q ops, p.dump = some d ∧ pfeedAll q0 d = some (q, [Function.sgr ops]) ∧ q.state = .Ground
+      ∧ ∀ t : Terminal, t.execute (.sgr ops) = some { t with pen := p } := by
+  obtain ⟨d, q, hd, hf, hq, hops⟩ := pfeed_pen_dump p h q0 hG hP
+  exact ⟨d, q, penOps p, hd, hf, hq, fun t => by simp [Terminal.execute, Terminal.sgr, hops]⟩
+
+/-- equal normal forms show the same through the public API -/
+theorem C11_norm_obs (a b : Vt) (h : normD a = normD b) : obs a = obs b := by
+  have ht : normT a.terminal = normT b.terminal := congrArg Vt.terminal h
+  have h1 : a.terminal.buffer.view = b.terminal.buffer.view := congrArg (fun t => t.buffer.view) ht
+  have h2' := congrArg (fun t : Terminal => t.cursor) ht
+  have h3' := congrArg (fun t : Terminal => t.cursorKeysMode) ht
+  have h2 : a.terminal.cursor = b.terminal.cursor := h2'
+  have h3 : a.terminal.cursorKeysMode = b.terminal.cursorKeysMode := h3'
+  simp only [obs, Vt.view, Terminal.view, Vt.cursor, Vt.cursorKeyAppMode, h1, h2, h3]
+
+/-- **normal-form soundness, partial**: for the functions that touch no buffer (cursor movement and
+    addressing, tab stops, ANSI and non-alternate-screen DEC modes, SGR, character sets, save/restore
+    cursor, margins, soft reset) terminals with equal normal forms stay so, and panic together. -/
+theorem C11_norm_sound_step_partial (f : Function) (hf : simpleFn f = true) (s t : Terminal)
+    (e : normT s = normT t) : (s.execute f).map normT = (t.execute f).map normT :=
+  norm_sound_execute f hf s t e
+
+/-- **normal-form soundness of the parser** (every character, every state): two parsers whose
+    registers satisfy the invariant (`PInv`) and have the shape of their state (`PRegOK`) and which agree
+    up to dead registers (`normP`) emit the same function — or panic together — and agree afterwards. -/
+theorem C11_normP_sound (a b : Parser) (ha : PInv a = true) (hb : PInv b = true) (ra : PRegOK a = true)
+    (rb : PRegOK b = true) (h : normP a = normP b) (c : Nat) :
+    (a.feed c).map (fun r => (normP r.1, r.2)) = (b.feed c).map (fun r => (normP r.1, r.2)) :=
+  nstep_eq ⟨ha, hb, ra, rb, h⟩ c
+
+/-- **normal-form soundness, one character, partial**: any parser state; the character may emit
+    nothing or any function that touches no buffer. -/
+theorem C11_norm_sound_feed_partial (a b : Vt) (ha : PInv a.parser = true) (hb : PInv b.parser = true)
+    (ra : PRegOK a.parser = true) (rb : PRegOK b.parser = true) (h : normD a = normD b) (c : Nat)
+    (hsimple : ∀ p' f, a.parser.feed c = some (p', some f) → simpleFn f = true) :
+    (a.feed c).map normD = (b.feed c).map normD :=
+  norm_sound_feed a b ⟨ha, hb, ra, rb, congrArg Vt.parser h⟩ (congrArg Vt.terminal h) c hsimple
+
+theorem C11_reach_feedAll {s s' : Vt} (h : Reach s) (xs : List Nat) (hf : s.feedAll xs = some s') :
+    Reach s' := h.feedAll xs hf
+
+/-- **the decomposition is right**: the two stated halves give the property as the text words it —
+    after restoring from `dump()`, original and restored show the same through the public API now
+    and after every continuation input (and panic together, i.e. never — C01). -/
+theorem C11_from_parts (hd : C11_dump_full) (hs : C11_norm_sound) (s : Vt) (hr : Reach s)
+    (hcols : 1 ≤ s.terminal.cols) (hrows : 1 ≤ s.terminal.rows)
+    (h2 : resizedOnAlt s.terminal = false) (h1 : cursorStepFaithful s.terminal = true) :
+    ∃ r, restoreOf s = some r ∧
+      ∀ xs : List Nat, (s.feedAll xs).map obs = (r.feedAll xs).map obs := by
+  obtain ⟨r, hrs, hn⟩ := hd s hr h2 h1
+  have hrr : Reach r := Reach.restore hcols hrows hrs
+  refine ⟨r, hrs, fun xs => ?_⟩
+  suffices H : ∀ (xs : List Nat) (a b : Vt), Reach a → Reach b → normD a = normD b →
+      (a.feedAll xs).map normD = (b.feedAll xs).map normD by
+    have := H xs s r hr hrr hn.symm
+    cases ha : s.feedAll xs with
+    | none =>
+      cases hb : r.feedAll xs with
+      | none => rfl
+      | some b' => simp [ha, hb] at this
+    | some a' =>
+      cases hb : r.feedAll xs with
+      | none => simp [ha, hb] at this
+      | some b' =>
+        simp only [ha, hb, Option.map_some, Option.some.injEq] at this ⊢
+        exact C11_norm_obs a' b' this
+  intro xs
+  induction xs with
+  | nil => intro a b _ _ h; simp [Vt.feedAll, h]
+  | cons c cs ih =>
+    intro a b ha hb h
+    have step := hs a b ha hb h c
+    simp only [Vt.feedAll]
+    cases hfa : a.feed c with
+    | none =>
+      cases hfb : b.feed c with
+      | none => rfl
+      | some b' => simp [hfa, hfb] at step
+    | some a' =>
+      cases hfb : b.feed c with
+      | none => simp [hfa, hfb] at step
+      | some b' =>
+        simp only [hfa, hfb, Option.map_some, Option.some.injEq] at step
+        exact ih a' b' (ha.feedAll [c] (by simp [Vt.feedAll, hfa])) (hb.feedAll [c] (by simp [Vt.feedAll, hfb])) step
+
+/-- dump step 9 is faithful by definition unless origin mode is on and the cursor is parked outside
+    the scroll region (the only situation in which `dump()` takes the `CSI u` route) -/
+theorem C11_cursorStepFaithful_inside (t : Terminal)
+    (h : t.originMode = false ∨ (t.topMargin ≤ t.cursor.row ∧ t.cursor.row ≤ t.bottomMargin)) :
+    cursorStepFaithful t = true := by
+  simp only [cursorStepFaithful, cursorOutsideRegion, Bool.or_eq_true, Bool.not_eq_true',
+    Bool.and_eq_false_iff, Bool.or_eq_false_iff, decide_eq_false_iff_not]
+  left
+  rcases h with h | h
+  · exact Or.inl h
+  · exact Or.inr ⟨by omega, by omega⟩
+
+/-! ### the known findings: negations on the witnesses (kernel evaluation of the whole model) -/
+
+def esc : Nat := 0x1b
+
+/-- KF1 witness (DESIGN.md §7), 4x6: `CSI ?6h` `CSI 2;3r` `ESC 7` `CSI 4;5r` `ESC 8` `CSI ?1047h` -/
+def kf1Hist : List HOp :=
+  [.feedStr [esc, 0x5b, 0x3f, 0x36, 0x68], .feedStr [esc, 0x5b, 0x32, 0x3b, 0x33, 0x72], .feedStr [esc, 0x37],
+   .feedStr [esc, 0x5b, 0x34, 0x3b, 0x35, 0x72], .feedStr [esc, 0x38],
+   .feedStr [esc, 0x5b, 0x3f, 0x31, 0x30, 0x34, 0x37, 0x68]]
+
+/-- on the KF1 witness the classifier says KF1, the restored state differs from the dumped one
+    (the public observation still agrees), and after the probe `CSI 1;1H` the public observations
+    differ (row 3 vs row 0): `C11_dump_full`'s conclusion is FALSE here, which is why
+    `cursorStepFaithful` is a hypothesis -/
+theorem KF1_witness :
+    witness 4 6 kf1Hist [esc, 0x5b, 0x31, 0x3b, 0x31, 0x48]
+      = some { findings := [.kf1], sameAtRestore := false, obsSameAtRestore := true,
+               sameAfterProbe := false, obsSameAfterProbe := false } := by decide +kernel
+
+/-- the same history without the final `CSI ?1047h` (the saved context still agrees with the modes):
+    no finding, restore exact, probe agrees -/
+theorem KF1_neighbour_ok :
+    witness 4 6 (kf1Hist.take 5) [esc, 0x5b, 0x31, 0x3b, 0x31, 0x48]
+      = some { findings := [], sameAtRestore := true, obsSameAtRestore := true,
+               sameAfterProbe := true, obsSameAfterProbe := true } := by decide +kernel
+
+/-- KF2 witness, 6x3: `abcdefgh` `CSI ?1047h`, resize 4x3 -/
+def kf2Hist : List HOp :=
+  [.feedStr [0x61, 0x62, 0x63, 0x64, 0x65, 0x66, 0x67, 0x68],
+   .feedStr [esc, 0x5b, 0x3f, 0x31, 0x30, 0x34, 0x37, 0x68], .resize 4 3]
+
+/-- probe `CSI ?1047l`: a different primary screen comes back -/
+theorem KF2_witness :
+    witness 6 3 kf2Hist [esc, 0x5b, 0x3f, 0x31, 0x30, 0x34, 0x37, 0x6c]
+      = some { findings := [.kf2], sameAtRestore := false, obsSameAtRestore := true,
+               sameAfterProbe := false, obsSameAfterProbe := false } := by decide +kernel
+
+/-- without the resize: exact -/
+theorem KF2_neighbour_ok :
+    witness 6 3 (kf2Hist.take 2) [esc, 0x5b, 0x3f, 0x31, 0x30, 0x34, 0x37, 0x6c]
+      = some { findings := [], sameAtRestore := true, obsSameAtRestore := true,
+               sameAfterProbe := true, obsSameAfterProbe := true } := by decide +kernel
+
+/-- KF3 witness, 4x8: `CSI ?6h` `CSI 5;6r` `ESC 7` `CSI ?1047h` `CSI 7;8r` `ESC 7` `CSI ?1047l` `ESC 8`
+    `CSI ?1047h` -/
+def kf3Hist : List HOp :=
+  [.feedStr [esc, 0x5b, 0x3f, 0x36, 0x68], .feedStr [esc, 0x5b, 0x35, 0x3b, 0x36, 0x72], .feedStr [esc, 0x37],
+   .feedStr [esc, 0x5b, 0x3f, 0x31, 0x30, 0x34, 0x37, 0x68], .feedStr [esc, 0x5b, 0x37, 0x3b, 0x38, 0x72],
+   .feedStr [esc, 0x37], .feedStr [esc, 0x5b, 0x3f, 0x31, 0x30, 0x34, 0x37, 0x6c], .feedStr [esc, 0x38],
+   .feedStr [esc, 0x5b, 0x3f, 0x31, 0x30, 0x34, 0x37, 0x68]]
+
+/-- the modes agree, the saved position lies beyond a margin: the cursor itself is restored wrongly
+    (row 6 instead of 4), visible at once -/
+theorem KF3_witness :
+    witness 4 8 kf3Hist [0x58]
+      = some { findings := [.kf3], sameAtRestore := false, obsSameAtRestore := false,
+               sameAfterProbe := false, obsSameAfterProbe := false } := by decide +kernel
+
+/-- the same history stopped before the last `CSI ?1047h` (cursor outside the region, origin mode on,
+    saved context = the cursor's own): the `CSI u` route is taken and is faithful -/
+theorem KF3_neighbour_ok :
+    witness 4 8 (kf3Hist.take 8) [0x58]
+      = some { findings := [], sameAtRestore := true, obsSameAtRestore := true,
+               sameAfterProbe := true, obsSameAfterProbe := true } := by decide +kernel
+
+/-! ### a concrete non-trivial state -/
+
+/-- 9x4: coloured and struck-through text that wraps, a cleared tab stop, the drawing charset in G1 and
+    shifted in, margins 2..3 with origin mode, insert mode, new-line mode, auto-wrap off, application
+    cursor keys, a hidden cursor, a saved context with another pen, an alternate-screen saved context,
+    and the input cut inside `CSI ?25;1:2` -/
+def exHist : List HOp :=
+  [.feedStr [esc, 0x5b, 0x33, 0x38, 0x3a, 0x32, 0x3a, 0x31, 0x3a, 0x32, 0x3a, 0x33, 0x3b, 0x39, 0x6d],   -- CSI 38:2:1:2:3;9m
+   .feedStr [0x61, 0x62, 0x63, 0x64, 0x65, 0x66, 0x67, 0x68, 0x69, 0x6a, 0x6b],                             -- abcdefghijk
+   .feedStr [esc, 0x5b, 0x33, 0x67, esc, 0x29, 0x30, 0x0e],                                             -- CSI 3g  ESC )0  SO
+   .feedStr [esc, 0x5b, 0x34, 0x34, 0x6d, esc, 0x37],                                                  -- CSI 44m ESC 7
+   .feedStr [esc, 0x5b, 0x3f, 0x31, 0x30, 0x34, 0x37, 0x68, esc, 0x5b, 0x32, 0x3b, 0x32, 0x48, esc, 0x37,
+             esc, 0x5b, 0x3f, 0x31, 0x30, 0x34, 0x37, 0x6c],                                            -- ?1047h CSI 2;2H ESC 7 ?1047l
+   .feedStr [esc, 0x5b, 0x32, 0x3b, 0x33, 0x72, esc, 0x5b, 0x3f, 0x36, 0x68],                           -- CSI 2;3r CSI ?6h
+   .feedStr [esc, 0x5b, 0x34, 0x3b, 0x32, 0x30, 0x68, esc, 0x5b, 0x3f, 0x37, 0x6c, esc, 0x5b, 0x3f, 0x31, 0x68], -- CSI 4;20h ?7l ?1h
+   .feedStr [0x71, esc, 0x5b, 0x3f, 0x32, 0x35, 0x6c],                                                  -- q CSI ?25l
+   .feedStr [esc, 0x5b, 0x3f, 0x32, 0x35, 0x3b, 0x31, 0x3a, 0x32]]                                       -- CSI ?25;1:2   (cut)
+
+/-- on that state: reachable, parser registers in shape, parser stuck in `CsiParam` with a marker and a
+    sub-parameter, pens valid; the restore is exact (`normD`), and stays exact after the probe that
+    completes the cut sequence and walks through both saved contexts -/
+example :
+    witness 9 4 exHist [0x68, esc, 0x38, 0x58, esc, 0x5b, 0x3f, 0x31, 0x30, 0x34, 0x37, 0x68, esc, 0x38, 0x59]
+      = some { findings := [], sameAtRestore := true, obsSameAtRestore := true,
+               sameAfterProbe := true, obsSameAfterProbe := true }
+    ∧ ((Vt.new 9 4 none).bind fun v => runHist v exHist).map
+        (fun s => Inv s && PRegOK s.parser && (s.parser.state == .CsiParam) && (s.parser.intermediate == some 0x3f)
+          && (s.terminal.tabs != Tabs.new 9) && s.terminal.originMode && !s.terminal.cursor.visible
+          && (s.terminal.cursorKeysMode == .application) && !s.terminal.savedCtx.isDefault
+          && !s.terminal.alternateSavedCtx.isDefault) = some true := by
+  constructor <;> decide +kernel
+
+def exState : Option Vt := (Vt.new 9 4 none).bind fun v => runHist v exHist
+
+theorem exState_isSome : exState.isSome = true := by decide +kernel
+
+/-- and the fragment theorems apply to its parser: the hypotheses of `C11_parser_dump` hold -/
+example : ∃ s, exState = some s ∧
+    ∃ d q, s.parser.dump = some d ∧ pfeedAll Parser.new d = some (q, []) ∧ normP q = normP s.parser := by
+  refine ⟨exState.get exState_isSome, (Option.some_get exState_isSome).symm, ?_⟩
+  exact C11_parser_dump _ Parser.new (by decide +kernel) (by decide +kernel) rfl (by decide +kernel)
+
+end Avt.Props.C11
